@@ -391,6 +391,10 @@ func (h *Header) SetExtension(id uint8, payload []byte) error { //nolint:gocogni
 			if len(payload) > 16 {
 				return fmt.Errorf("%w actual(%d)", errRFC8285OneByteHeaderSize, len(payload))
 			}
+			if len(payload) == 0 {
+				// the one-byte form encodes length-1 and cannot carry an empty value
+				return fmt.Errorf("%w actual(%d)", errRFC8285OneByteHeaderSize, len(payload))
+			}
 		// RFC 8285 RTP Two Byte Header Extension
 		case extensionProfileTwoByte:
 			if id < 1 {
